@@ -24,11 +24,7 @@ func floatStrFunc(_ *ctx.EvalCtx, receiver object.Object, _ ...object.Object) (o
 func floatAbsFunc(_ *ctx.EvalCtx, receiver object.Object, _ ...object.Object) (object.Object, error) {
 	val := receiver.(*object.Float).Value
 
-	if val < 0 {
-		return &object.Float{Value: -val}, nil
-	}
-
-	return receiver, nil
+	return &object.Float{Value: math.Abs(val)}, nil
 }
 
 // floatCeilFunc returns the rounded up value of a float to the nearest integer
